@@ -158,6 +158,8 @@ def judge(run: Run, case: dict, res: dict, stats: dict):
     rec = {"case": cid, "files": res.get("layout", {}).get("files"), "tlc_case": {k: case[k] for k in case if k not in ("enc", "tree")}}
     if res["error"]:
         die(f"C08: concretiser/harness failure on {cid}:\n{res['error']}")
+    if res.get("runtime") is not None and case["kind"] != "root" and res["runtime"] != (case.get("guard", "none") == "none"):
+        die(f"C08: concretisation of {cid}: runtime={res['runtime']} but the descriptor's guard is {case.get('guard')}")
     run.replayed()
     run.evaluated()
     nontrivial = case["part"] != "shape" or any(case[k] not in ("na", "none", "absent", "nopar", False, "x", "pkg", "container")
@@ -213,22 +215,31 @@ def judge(run: Run, case: dict, res: dict, stats: dict):
             continue
         if not same:
             diff = res["same"].get(form + "_diff") or ""
-            field = "docstring.parsed" if ".parsed" in diff else (diff.split(":")[0].split(".")[-1].split("[")[0] or "?")
+            lost_members = "key disappears" in diff and ".members." in diff and any(d[1] == "<object>" and d[4] in ("function", "attribute") for d in res["tree_diff"])
+            field = "docstring.parsed" if ".parsed" in diff else "members" if lost_members else (diff.split(":")[0].split(".")[-1].split("[")[0] or "?")
             run.violation(sig_of(case, clause="roundtrip", form=form, field=field,
-                                 shape="docstring-parser-configured" if case["doc"] == "google" else "other"),
+                                 shape="docstring-parser-configured" if case["doc"] == "google" else "members-of-function" if lost_members else "other"),
                           f"as_json({form}) differs after reload on {cid}: {diff}", rec)
             stats["roundtrip-" + form] += 1
         if md["ok"] and same != case["same"][form]:
             drift.append(f"same.{form}: model {case['same'][form]} real {same}")
 
     # ---- equivalent tree ---------------------------------------------------------------------------
-    for okind, field, cls, path in res["tree_diff"]:
+    for okind, field, cls, path, parent in res["tree_diff"]:
         if cls == "data":
-            run.violation(sig_of(case, clause="tree-equal", object=okind, field=field),
+            run.violation(sig_of(case, clause="tree-equal", object=okind, field=field,
+                                 shape="members-of-function" if field == "<object>" and parent in ("function", "attribute") else "other"),
                           f"{okind} {path}: field {field} differs after reload on {cid}", rec)
             stats["tree-equal"] += 1
 
     # ---- names resolve as before, expressions render the same ----------------------------------------
+    if res["names_after"] is None:
+        # the focus is gone (reported by tree-equal / roundtrip above): no reloaded expressions to compare
+        if md["ok"] and case["clean"]["members"]:
+            drift.append("the focus object is lost on reload, the model keeps it")
+        return _finish(run, case, drift, stats)
+    if md["ok"] and not case["clean"]["members"]:
+        drift.append("the model predicts that the focus object is lost on reload, the real code keeps it")
     nb, na = res["names_before"], res["names_after"]
     mb, ma = case["names"]["before"], case["names"]["after"]
     strip = lambda xs: [{k: x[k] for k in ("slot", "pars", "scope")} for x in xs]  # noqa: E731
@@ -417,7 +428,7 @@ def vacuity(cases: list):
         problems.append("parts")
     if seen(lambda c: c["origin"]) != {json.dumps(o) for o in ("static", "inspect_src", "inspect_nosrc", "builtin", "namespace")}:
         problems.append("origins")
-    for flag in ("encode", "names", "full"):      # (decode and render: no failing shape is left since the decoder fixes)
+    for flag in ("encode", "names", "full", "members"):      # (decode and render: no failing shape is left since the decoder fixes)
         if {c["clean"][flag] for c in cases} != {True, False}:
             problems.append(f"clean.{flag} takes one value only")
     steps = {s for c in cases for s in c["spine"]}
